@@ -12,7 +12,7 @@ For one property it
 """
 import argparse, fcntl, hashlib, json, os, re, subprocess, sys, time, glob, shutil
 
-V = '/verif'
+V = os.environ.get('VERIF_ROOT') or os.path.dirname(os.path.dirname(os.path.abspath(__file__)))
 REPO = '/repo'
 LEAN = V + '/lean'
 BUILD = V + '/build'
@@ -121,7 +121,7 @@ def forbidden_tokens():
 # ---------------------------------------------------------------------------------------
 
 def build_harness():
-    r = sh([V + '/tools/build_harness.sh'], env=GOENV)
+    r = sh([V + '/tools/build_harness.sh'], env=dict(GOENV, VERIF_ROOT=V))
     return r.returncode == 0, r.stdout + r.stderr
 
 
